@@ -2,7 +2,7 @@
    Only statements, [exact], Print Assumptions and Examples live here. *)
 From Coq Require Import List NArith Arith Permutation Sorted.
 From DS Require Import Gen.Constants Base.Bytes Base.LE64 Base.GoPath Model.Format Model.Goodbye Model.Sip Model.Tar Model.TarSink
-     Model.TarWalk Proofs.GoodbyeProofs Proofs.TarProofs Proofs.TarSinkProofs Proofs.PathChildProofs Proofs.TarWalkProofs.
+     Model.TarWalk Model.TarStream Proofs.GoodbyeProofs Proofs.TarProofs Proofs.TarSinkProofs Proofs.PathChildProofs Proofs.TarWalkProofs.
 Import ListNotations.
 
 (* makeGoodbyeBST, for EVERY number of directory entries and every list of items (duplicated
@@ -218,3 +218,27 @@ Theorem C13_unclean_root_refuted : exists t,
   tar_sees PathRaw [116]%N t = Some (t, []).
 Proof. exists ex_walk_tree. exact tar_sees_raw_refuted_proof. Qed.
 Print Assumptions C13_unclean_root_refuted.
+
+(* ---------------------------------------------------------------------------------------
+   The tar-stream source with AddRoot (--tar-add-root).  [members_of cs] is the file stream of a
+   tar that lists the content cs of a directory without the directory itself ("a", "d", "d/x", ..);
+   [stream_sees v add_root members] (Model/TarStream.v) is what Tar() encodes from TarReader.Next
+   (v = ReaderFixed: the synthetic root first, then every member). *)
+
+(* No member is lost: the archive is the synthetic root holding exactly the members, in stream order. *)
+Theorem C13_stream_addroot : forall cs,
+  Forall (fun nc : bytes * node => real_elem (fst nc) /\ names_real (snd nc)) cs ->
+  stream_sees ReaderFixed true (members_of cs) = Some (NDir stream_root_meta [] cs, []).
+Proof. exact stream_addroot_proof. Qed.
+Print Assumptions C13_stream_addroot.
+
+(* What the order of the two opening blocks of TarReader.Next is for: reading a member before the
+   root is handed out loses the first member ("a" below), and an empty stream gives io.EOF instead
+   of the archive of the empty root. *)
+Theorem C13_stream_reads_first_refuted :
+  stream_sees ReaderReadsFirst true (members_of ex_stream_members) =
+    Some (NDir stream_root_meta [] [([100], NDir ex_meta [] [([120], NFile ex_meta [] [])])]%N, []) /\
+  stream_sees ReaderReadsFirst true [] = None /\
+  stream_sees ReaderFixed true [] = Some (NDir stream_root_meta [] [], []).
+Proof. exact stream_reads_first_refuted_proof. Qed.
+Print Assumptions C13_stream_reads_first_refuted.
